@@ -541,6 +541,13 @@ class FunctionVC(Executor):
         yield s, res
 
     def call_closure(self, fnode, args, kwargs, s):
+        # an ASYNC closure that has its own contract: calling it only creates the coroutine object (the body runs when it
+        # is awaited / gathered); the creation is recorded in the ghost trace
+        key = f"{self.key}.{fnode.name}"
+        if isinstance(fnode, ast.AsyncFunctionDef) and key in self.project.contracts:
+            s.trace.append(("call", fnode.name, {"args": list(args), "kwargs": dict(kwargs), "coroutine": True}))
+            yield s, Val(smt.fresh_v("coro"), ANY)
+            return
         raise Unsupported("call of a local closure")
 
     # ------------------------------------------------------------------ top level
@@ -552,6 +559,8 @@ class FunctionVC(Executor):
         params = c.get("params", {})
         a = self.func_ast.args
         all_params = [x.arg for x in a.posonlyargs + a.args + a.kwonlyargs]
+        # a contracted CLOSURE: its free variables are declared as extra parameters of the contract (entry objects)
+        all_params += [p for p in params if p not in all_params and p not in (getattr(a.vararg, "arg", None), getattr(a.kwarg, "arg", None))]
         for p in all_params:
             ty = params.get(p, ANY)
             if ty == BOOL:
